@@ -116,7 +116,7 @@ theorem mem_of_node? (p : Proc) (id : String) (n : Node) (h : p.node? id = some 
 
 /-! ## arrival of a token -/
 
-theorem arrive_clean (cfg : Cfg) (hff : cfg.firstFlowDecides = false) (p : Proc) (hp : Fragment p) (s : St) (t : Tok)
+theorem arrive_clean (cfg : Cfg) (hff : cfg.firstFlowDecides = false) (htf : cfg.throwFuse = false) (p : Proc) (hp : Fragment p) (s : St) (t : Tok)
     (h : Clean s) : Clean (arrive cfg p s t).2 := by
   unfold arrive
   cases hn : p.node? t.node with
@@ -154,7 +154,9 @@ theorem arrive_clean (cfg : Cfg) (hff : cfg.firstFlowDecides = false) (p : Proc)
     | sub => exact absurd hk (hp n (mem_of_node? p _ n hn)).2
     | ebg => exact ⟨h.causes, h.subs⟩
     | catch_ => exact ⟨h.causes, h.subs⟩
-    | throw_ => exact ⟨h.causes, h.subs⟩
+    | throw_ =>
+      simp only [htf, Bool.false_and, Bool.false_eq_true, if_false]
+      exact selectFlows_clean cfg hff p _ t _ _ ⟨h.causes, h.subs⟩
     | boundary => exact ⟨h.causes, h.subs⟩
     | other => exact ⟨h.causes, h.subs⟩
 
@@ -177,7 +179,7 @@ theorem settleIncl_fragment (cfg : Cfg) (p : Proc) (hp : Fragment p) (s : St) (w
 
 /-! ## the work loop -/
 
-theorem runWork_clean (cfg : Cfg) (hff : cfg.firstFlowDecides = false) (p : Proc) (hp : Fragment p) :
+theorem runWork_clean (cfg : Cfg) (hff : cfg.firstFlowDecides = false) (htf : cfg.throwFuse = false) (p : Proc) (hp : Fragment p) :
     ∀ (fuel : Nat) (toks : List Tok) (s : St), Clean s → Clean (runWork cfg p fuel toks s) := by
   intro fuel
   induction fuel with
@@ -192,7 +194,7 @@ theorem runWork_clean (cfg : Cfg) (hff : cfg.firstFlowDecides = false) (p : Proc
       · exact ih _ _ h
     | cons t rest =>
       simp only [runWork]
-      have ha := arrive_clean cfg hff p hp s t h
+      have ha := arrive_clean cfg hff htf p hp s t h
       split
       · simp only [settleIncl_fragment cfg p hp]
         exact ih _ _ ha
@@ -200,13 +202,13 @@ theorem runWork_clean (cfg : Cfg) (hff : cfg.firstFlowDecides = false) (p : Proc
 
 /-! ## start and answers -/
 
-theorem start_clean (cfg : Cfg) (hff : cfg.firstFlowDecides = false) (p : Proc) (hp : Fragment p) (vars : Vars) :
+theorem start_clean (cfg : Cfg) (hff : cfg.firstFlowDecides = false) (htf : cfg.throwFuse = false) (p : Proc) (hp : Fragment p) (vars : Vars) :
     Clean (start cfg p vars) := by
   simp only [start]
-  apply runWork_clean cfg hff p hp
+  apply runWork_clean cfg hff htf p hp
   exact ⟨by rw [spawnStarts_causes], by rw [spawnStarts_subs]⟩
 
-theorem answer_clean (cfg : Cfg) (hff : cfg.firstFlowDecides = false) (p : Proc) (hp : Fragment p) (s : St)
+theorem answer_clean (cfg : Cfg) (hff : cfg.firstFlowDecides = false) (htf : cfg.throwFuse = false) (p : Proc) (hp : Fragment p) (s : St)
     (node : String) (occ : Nat) (a : Answer) (h : Clean s) : Clean (answer cfg p s node occ a) := by
   unfold answer
   simp only
@@ -215,20 +217,20 @@ theorem answer_clean (cfg : Cfg) (hff : cfg.firstFlowDecides = false) (p : Proc)
     cases a with
     | ok results =>
       simp only
-      apply runWork_clean cfg hff p hp
+      apply runWork_clean cfg hff htf p hp
       exact selectFlows_clean cfg hff p _ t _ _ ⟨h.causes, h.subs⟩
     | err mode retries =>
       simp only
       split
       · split
-        · exact runWork_clean cfg hff p hp _ _ _ ⟨by simpa using h.causes, by simpa using h.subs⟩
-        · exact runWork_clean cfg hff p hp _ _ _ ⟨by simpa using h.causes, by simpa using h.subs⟩
-      · exact runWork_clean cfg hff p hp _ _ _ ⟨by simpa using h.causes, by simpa using h.subs⟩
-      · apply runWork_clean cfg hff p hp
+        · exact runWork_clean cfg hff htf p hp _ _ _ ⟨by simpa using h.causes, by simpa using h.subs⟩
+        · exact runWork_clean cfg hff htf p hp _ _ _ ⟨by simpa using h.causes, by simpa using h.subs⟩
+      · exact runWork_clean cfg hff htf p hp _ _ _ ⟨by simpa using h.causes, by simpa using h.subs⟩
+      · apply runWork_clean cfg hff htf p hp
         exact selectFlows_clean cfg hff p _ t _ _ ⟨by simpa using h.causes, by simpa using h.subs⟩
   · exact ⟨by simpa using h.causes, by simpa using h.subs⟩
 
-theorem runOps_clean (cfg : Cfg) (hff : cfg.firstFlowDecides = false) (p : Proc) (hp : Fragment p) (vars : Vars)
+theorem runOps_clean (cfg : Cfg) (hff : cfg.firstFlowDecides = false) (htf : cfg.throwFuse = false) (p : Proc) (hp : Fragment p) (vars : Vars)
     (ops : List (String × Nat × Answer)) : Clean (runOps cfg p vars ops) := by
   unfold runOps
   have : ∀ (ops : List (String × Nat × Answer)) (s : St), Clean s →
@@ -236,14 +238,14 @@ theorem runOps_clean (cfg : Cfg) (hff : cfg.firstFlowDecides = false) (p : Proc)
     intro ops
     induction ops with
     | nil => intro s h; exact h
-    | cons x ops ih => intro s h; exact ih _ (answer_clean cfg hff p hp s _ _ _ h)
-  exact this ops _ (start_clean cfg hff p hp vars)
+    | cons x ops ih => intro s h; exact ih _ (answer_clean cfg hff htf p hp s _ _ _ h)
+  exact this ops _ (start_clean cfg hff htf p hp vars)
 
 /-- **No deviation on the fragment.** Whatever the program (without inclusive gateways and sub-processes), the data and
 the answers: the code configuration never logs a cause. -/
-theorem fragment_never_deviates (cfg : Cfg) (hff : cfg.firstFlowDecides = false) (p : Proc) (hp : Fragment p)
+theorem fragment_never_deviates (cfg : Cfg) (hff : cfg.firstFlowDecides = false) (htf : cfg.throwFuse = false) (p : Proc) (hp : Fragment p)
     (vars : Vars) (ops : List (String × Nat × Answer)) : (runOps cfg p vars ops).causes = [] :=
-  (runOps_clean cfg hff p hp vars ops).causes
+  (runOps_clean cfg hff htf p hp vars ops).causes
 
 /-! ## the cohort switch cannot be observed without inclusive gateways -/
 
@@ -297,12 +299,12 @@ theorem runOps_noCohort (cfg : Cfg) (p : Proc) (hp : Fragment p) (vars : Vars) (
 graph, any size, any conditions — every code configuration with `firstFlowDecides = false`, every data and every answer
 sequence, the run of the code configuration IS the run of the token game `Cfg.ideal`: every activity is requested exactly
 as often, and in the order, the token game prescribes; the same end events are reached with the same variables. -/
-theorem fragment_conformance (cfg : Cfg) (hff : cfg.firstFlowDecides = false) (h1 : cfg.eagerSettle = false)
+theorem fragment_conformance (cfg : Cfg) (hff : cfg.firstFlowDecides = false) (htf : cfg.throwFuse = false) (h1 : cfg.eagerSettle = false)
     (h2 : cfg.lateJoin = false) (p : Proc) (hp : Fragment p) (vars : Vars) (ops : List (String × Nat × Answer)) :
     runOps cfg p vars ops = runOps Cfg.ideal p vars ops := by
   rw [← runOps_noCohort cfg p hp]
   apply conformance_runOps_ideal (noCohort cfg) h1 h2 rfl
-  exact fragment_never_deviates (noCohort cfg) hff p hp vars ops
+  exact fragment_never_deviates (noCohort cfg) hff htf p hp vars ops
 
 /-! ## With the two sub-process repairs: everything except inclusive gateways
 
@@ -315,11 +317,12 @@ def NoIncl (p : Proc) : Prop := ∀ n ∈ p.nodes, n.kind ≠ .incl
 
 instance (p : Proc) : Decidable (NoIncl p) := by unfold NoIncl; infer_instance
 
-/-- the three repaired switches are off -/
+/-- the four repaired switches are off -/
 structure Repaired (cfg : Cfg) : Prop where
   firstFlow : cfg.firstFlowDecides = false
   subReturns : cfg.subNeverReturns = false
   subRearmed : cfg.subStartSticky = false
+  throwPasses : cfg.throwFuse = false
 
 theorem noIncl_filter (p : Proc) (hp : NoIncl p) : p.nodes.filter (·.kind == .incl) = [] := by
   apply List.filter_eq_nil_iff.mpr
@@ -384,7 +387,9 @@ theorem arrive_quiet (cfg : Cfg) (hc : Repaired cfg) (p : Proc) (hp : NoIncl p) 
       · rw [spawnStarts_causes, enterSub_quiet cfg hc.subRearmed]
     | ebg => rfl
     | catch_ => rfl
-    | throw_ => rfl
+    | throw_ =>
+      simp only [hc.throwPasses, Bool.false_and, Bool.false_eq_true, if_false]
+      rw [selectFlows_quiet cfg hc.firstFlow]
     | boundary => rfl
     | other => rfl
 
@@ -492,14 +497,14 @@ theorem runOps_noCohort' (cfg : Cfg) (p : Proc) (hp : NoIncl p) (vars : Vars) (o
 
 /-- **C01 for every program without inclusive gateways, unconditionally** (sequences, exclusive and parallel blocks, loops,
 conditional flows leaving activities, embedded sub-processes at any depth and re-entered any number of times, and any
-unstructured graph of those nodes): at a code configuration with the three repaired switches off — whatever the cohort
+unstructured graph of those nodes): at a code configuration with the four repaired switches off — whatever the cohort
 switch — every run IS the run of the BPMN token game, state by state. -/
 theorem noIncl_conformance (cfg : Cfg) (hc : Repaired cfg) (h1 : cfg.eagerSettle = false) (h2 : cfg.lateJoin = false)
     (p : Proc) (hp : NoIncl p) (vars : Vars) (ops : List (String × Nat × Answer)) :
     runOps cfg p vars ops = runOps Cfg.ideal p vars ops := by
   rw [← runOps_noCohort' cfg p hp]
   apply conformance_runOps_ideal (noCohort cfg) h1 h2 rfl
-  exact noIncl_never_deviates (noCohort cfg) ⟨hc.firstFlow, hc.subReturns, hc.subRearmed⟩ p hp vars ops
+  exact noIncl_never_deviates (noCohort cfg) ⟨hc.firstFlow, hc.subReturns, hc.subRearmed, hc.throwPasses⟩ p hp vars ops
 
 /-- it cannot be extended to inclusive gateways: `C01Conformance_counterexample` is a program with inclusive gateways on
 which the configuration with only the cohort switch on leaves `Cfg.ideal` -/
@@ -562,5 +567,44 @@ example : (runOps Cfg.ideal demoSub [] [("A", 1, .ok [("v", 1)]), ("A", 2, .ok [
     [.complete "ue", .complete "e"] := by decide
 example : (runOps Cfg.ideal demoProc [] [("A", 1, .ok [("v", 2)]), ("C", 1, .ok []), ("B", 1, .ok [])]).obs =
     [.complete "P2", .req "D"] := by decide
+
+/-! ## intermediate throw events: every token passes (D38)
+
+`s → P1(par fork) → {A, B} → H (throw event, both branches meet here without a join) → C → e`: two tokens reach `H`. -/
+def demoThrow : Proc :=
+  { nodes := [
+      { id := "s", kind := .start, ins := [], outs := ["f0"] },
+      { id := "P1", kind := .par, ins := ["f0"], outs := ["f1", "f2"] },
+      { id := "A", kind := .task, ins := ["f1"], outs := ["f3"] },
+      { id := "B", kind := .task, ins := ["f2"], outs := ["f4"] },
+      { id := "H", kind := .throw_, ins := ["f3", "f4"], outs := ["f5"] },
+      { id := "C", kind := .task, ins := ["f5"], outs := ["f6"] },
+      { id := "e", kind := .end_, ins := ["f6"], outs := [] }],
+    flows := [
+      { id := "f0", src := "s", dst := "P1", cond := .none }, { id := "f1", src := "P1", dst := "A", cond := .none },
+      { id := "f2", src := "P1", dst := "B", cond := .none }, { id := "f3", src := "A", dst := "H", cond := .none },
+      { id := "f4", src := "B", dst := "H", cond := .none }, { id := "f5", src := "H", dst := "C", cond := .none },
+      { id := "f6", src := "C", dst := "e", cond := .none }] }
+
+example : Fragment demoThrow := by decide
+
+/-- the token game: both tokens pass the throw event, C is requested twice -/
+example : ((runOps Cfg.ideal demoThrow [] [("A", 1, .ok []), ("B", 1, .ok [])]).pending.map (·.1.node)) = ["C", "C"] := by decide
+
+/-- the configuration with ONLY the throw-event switch on (the code before the repair f5a8c41) -/
+def throwFuseCfg : Cfg := { Cfg.ideal with throwFuse := true }
+
+/-- **the hypothesis `throwFuse = false` is needed** (kernel-checked witness of D38): with the switch on the second token
+is consumed at the throw event — C is requested once, the deviation is logged — so the run is not the token game's -/
+theorem throwFuse_hypothesis_needed :
+    ((runOps throwFuseCfg demoThrow [] [("A", 1, .ok []), ("B", 1, .ok [])]).pending.map (·.1.node)) = ["C"] ∧
+    (runOps throwFuseCfg demoThrow [] [("A", 1, .ok []), ("B", 1, .ok [])]).causes = ["throw_fused"] ∧
+    ¬ (∀ (p : Proc) (_ : Fragment p) (vars : Vars) (ops : List (String × Nat × Answer)),
+        runOps throwFuseCfg p vars ops = runOps Cfg.ideal p vars ops) := by
+  refine ⟨by decide, by decide, ?_⟩
+  intro h
+  have := congrArg (fun s => s.pending.map (·.1.node)) (h demoThrow (by decide) [] [("A", 1, .ok []), ("B", 1, .ok [])])
+  revert this
+  decide
 
 end Bpmn.Props.C01Fragment
